@@ -221,6 +221,8 @@ class FilePlacementRule(BaseLintRule):  # thailint: ignore[srp.violation]
 
         project_root = self._get_project_root(context)
         linter = self._get_or_create_linter(project_root, context)
+        if linter.config.get("enabled", True) is False:
+            return []
         return linter.lint_path(context.file_path)
 
     def _get_project_root(self, context: BaseLintContext) -> Path:
